@@ -152,7 +152,7 @@ func faultFamily(tier string, off int64, prefix string, nq, nt int) []*spec.Spec
 	})
 	f := 0.6
 	if prefix == "h" {
-		f = 0.35 // C08 runs every scenario with the (slow) leak monitor
+		f = 0.15 // C08 runs every scenario with the (slow) leak monitor
 	}
 	specs = append(specs, enumFamilySized(tier, base.Seed()+off, "e"+prefix, 0.5, f)...)
 	return specs
